@@ -1235,7 +1235,9 @@ Section Cache.
     cbn [acc_loop map acc_pure].
     destruct (fetch_clean st k Hc) as [F1 F2]. destruct (fetch scan st k) as [v st1]. cbn [fst snd] in F1, F2.
     subst v. destruct (scan k) as [d|].
-    - destruct created as [[k0 c]|]; apply (IH _ st1 F2).
+    - destruct created as [[k0 c]|]; cbn [option_map snd].
+      + exact (IH (Some (k0, merge ACC_PARTS c d)) st1 F2).
+      + exact (IH (Some (k, d)) st1 F2).
     - apply (IH created st1 F2).
   Qed.
 
